@@ -15,6 +15,7 @@
    t with the scripted mutations mus). *)
 From Coq Require Import ZArith List Bool.
 From Tickit Require Import RectDefs WinRectSet WinDefs WinSpec WinInput WinInputSpec WinInputProofs WinInputMutBase WinInputMutKey WinInputMutMouse WinInputMutation.
+From Tickit Require WinLogDisjoint WinShowSpec.
 Import ListNotations.
 Local Open Scope Z_scope.
 
@@ -264,6 +265,36 @@ Theorem C14_refuted_30 :
   c14_rest_checkb [3] (key_spec (fun _ => 0) tree30) (rev (i_log s')) = false.
 Proof. exact (@WinInputProofs.C14_refuted_30). Qed.
 Print Assumptions C14_refuted_30.
+
+(* tickit_window_show and the focus links (oracle clause c15_show_checkb, evaluated on the trees the
+   implementation reports before and after every show): the shown window becomes its parent's
+   focused child exactly when the parent has none and the window is flagged focused or has a focused
+   child of its own; every other link, every focused flag and the shape of the tree are untouched.
+   The model's show meets it, for every defect configuration ... *)
+Theorem C14_show_links : forall cfg st id,
+  WinLogDisjoint.ids_unique (r_tree st) ->
+  c15_show_checkb id (r_tree st) (r_tree (win_show cfg st id)) = true.
+Proof. exact WinShowSpec.show_meets_spec. Qed.
+Print Assumptions C14_show_links.
+
+(* ... and the checker rejects both seeded behaviours: re-linking a window although another child
+   holds the parent's link, and leaving a container off the chain whose focus holder is two levels
+   below it *)
+Example C14_show_refutes_relink :
+  WinLogDisjoint.ids_unique WinShowSpec.relink_before /\
+  c15_show_checkb 2 WinShowSpec.relink_before WinShowSpec.relink_seeded = false /\
+  c15_show_checkb 2 WinShowSpec.relink_before (r_tree (win_show no_defects (WinShowSpec.st_of WinShowSpec.relink_before) 2)) = true /\
+  w_fchild (t_info (r_tree (win_show no_defects (WinShowSpec.st_of WinShowSpec.relink_before) 2))) = Some 1.
+Proof. exact WinShowSpec.show_refutes_relink. Qed.
+Print Assumptions C14_show_refutes_relink.
+
+Example C14_show_refutes_one_level :
+  WinLogDisjoint.ids_unique WinShowSpec.one_level_before /\
+  c15_show_checkb 1 WinShowSpec.one_level_before WinShowSpec.one_level_seeded = false /\
+  c15_show_checkb 1 WinShowSpec.one_level_before (r_tree (win_show no_defects (WinShowSpec.st_of WinShowSpec.one_level_before) 1)) = true /\
+  w_fchild (t_info (r_tree (win_show no_defects (WinShowSpec.st_of WinShowSpec.one_level_before) 1))) = Some 1.
+Proof. exact WinShowSpec.show_refutes_one_level. Qed.
+Print Assumptions C14_show_refutes_one_level.
 
 Example C14_nonvacuous :
   key_order tree_nv = [1; 5; 2; 6; 0; 4] /\
